@@ -225,6 +225,7 @@ func runPrintCase(o *Oracle, d json.RawMessage, oc *Outcome) {
 			}
 			text = s.PBString()
 			entry = "solver.Solver.PBString"
+			solverPrintMirror(o, oc, s, pb, text)
 		}
 		oc.Sample = fmt.Sprintf("%s = %q", entry, text)
 		oc.Nontrivial = strings.Contains(text, ">=") || strings.Contains(text, "= ")
@@ -257,5 +258,45 @@ func runPrintCase(o *Oracle, d json.RawMessage, oc *Outcome) {
 	}
 	if len(oc.Sample) > 500 {
 		oc.Sample = oc.Sample[:500] + "…"
+	}
+}
+
+// solverPrintMirror ties Solver.PBString to its Lean mirror GS.SolverPrint.printSolverText (theorems
+// solver_print_parse, solver_print_models): same bytes for the state the solver holds (cost
+// function, original and learned constraints, binding array).
+func solverPrintMirror(o *Oracle, oc *Outcome, s *solver.Solver, pb *solver.Problem, text string) {
+	orig, learned := s.VerifConstraints()
+	groups := func(cs []solver.PBConstr) string {
+		var gs []string
+		for _, c := range cs {
+			g := fmt.Sprint(c.AtLeast)
+			for i, l := range c.Lits {
+				w := 1
+				if c.Weights != nil {
+					w = c.Weights[i]
+				}
+				g += fmt.Sprintf(" %d %d", w, l)
+			}
+			gs = append(gs, g)
+		}
+		return strings.Join(gs, " ; ")
+	}
+	cost := "none"
+	if ls, ws := pb.VerifCostFunc(); ls != nil {
+		var ts []string
+		for i, l := range ls {
+			w := 1
+			if ws != nil {
+				w = ws[i]
+			}
+			ts = append(ts, fmt.Sprintf("%d %d", w, l))
+		}
+		cost = strings.Join(ts, " ")
+	}
+	lv := s.VerifModelLevels()
+	want := o.Ask(fmt.Sprintf("sprintpb %d | %s | %s | %s | %s", len(lv), cost, groups(orig), groups(learned), encInts(lv)))
+	oc.Corr++
+	if got := strings.ReplaceAll(text, "\n", "\\n"); got != want {
+		oc.Fail("corr", "solver-print-mirror", "solver.Solver.PBString", "Go printed %q, the Lean mirror GS.SolverPrint.printSolverText %q", got, want)
 	}
 }
